@@ -403,8 +403,10 @@ func init() {
 	ov := func(f func(x, y *Term) *Term) I {
 		return func(c *Ctx, fr *frame, fn *ssa.Function, a []value, pos token.Pos) value {
 			full := f(uOf(c, a[1], pos), uOf(c, a[2], pos))
-			z := uSet(c, a[0], Mod(full, m256), pos)
-			return tuple{z, Or(Ge(full, m256), Lt(full, CI(0)))}
+			ovf := Or(Ge(full, m256), Lt(full, CI(0)))
+			// ite form: under "no overflow" the result is literally the unwrapped term
+			z := uSet(c, a[0], Ite(ovf, Mod(full, m256), full), pos)
+			return tuple{z, ovf}
 		}
 	}
 	intrinsics[U+"AddOverflow"] = ov(Add)
